@@ -8,10 +8,13 @@ def run(ctx):
     try:
         lq.standard(ctx, "C42", ("LedgerQuery_C42.cfg", "LedgerQuery_C42t.cfg"), ["Submit:ok", "PreExec", "Restart"],
                     {"unchanged", "views", "history"},
-                    tv=({"ntraces": 2, "nsteps": 40}, {"ntraces": 10, "nsteps": 80}),
+                    tv=({"ntraces": 2, "nsteps": 40}, {"ntraces": 10, "nsteps": 80}), tags=("verif",),
                     assumptions=["pre-execution interfaces driven: PreExecuteContract (native transfer signed by its owner, failing transfer, "
                                  "NeoVM deploy, NeoVM contract writing storage, malformed script, EIP-155 transfer/create/call emitting a log and "
                                  "writing storage), PreExecuteContractBatch (atomic and not), PreExecuteEip155Tx (call, create)",
+                                 "non-atomic pre-executions are also run INSIDE submitBlock at its commit points (verif build tag, VerifHook: staged, "
+                                 "blk, evt, st, cur) while a valid block is being committed; the committed result must equal the model's commit and "
+                                 "the digests of every other visit of the same chain",
                                  "'unchanged' = sha256 over the full key/value content of the block, state, event and cross-chain LevelDB stores "
                                  "and of merkle_tree.db, current heights of the three stores, every query view; in-memory effects are caught by "
                                  "committing blocks afterwards and comparing with other visits of the same chain"])
